@@ -1,7 +1,10 @@
 """Reconstructs a TZ-database source tree from the raw Rule / Zone / Link lines that the generator
 recorded as comments beside every entry of the shipped zonedbx tables. The result is a valid input
 for tools/tzcompiler.py (387 zones, ~540 rule lines, ~200 links); it is not the original 2020d
-release (eras that end before 2000 are absent), which does not matter for a determinism check."""
+release (eras that end before 2000 are absent), which does not matter for a determinism check.
+On top of that come clearly named synthetic `Verif/*` entries (ties, colliding names, several reasons per item, eras
+that end part-way through a month, policies that change late in the range); everything is spread over the nine files
+of a TZ release; `decoy=True` writes a different source with the same names (each zone carries the next zone's eras)."""
 import os
 import re
 
